@@ -123,6 +123,10 @@ def corpus(tier):
         # the local file is longer than the size announced now (stale version on disk / surplus of an earlier attempt)
         for junk in (1, 1000):
             out.append(scripted_plan('uploader', size, {}, prefix=size, prefix_junk=junk))
+        # other people's files sit where the download would go (natural name, numbered variants), default and configured chains
+        for foreign in ([''], ['', ' (2)'], ['', ' (2)', ' (3)'], ['', ' (1)', ' (3)']):
+            for chain in (None, ['D', 'K', 'N'], ['K', 'D', 'N']):
+                out.append(scripted_plan('uploader', size, {}, foreign=foreign, chain=chain))
         # a downloader that stops reading (everything fits the socket buffers) and never ends the connection
         out.append(scripted_plan('downloader', size, {'read_bytes': 0, 'stop_how': 'stall'}))
         out.append(scripted_plan('downloader', size, {'read_bytes': max(size // 2, 1), 'stop_how': 'stall'}))
@@ -172,6 +176,9 @@ def generate(rng, index, tier):
             # (with a sender that lies about the size "the remote file" is not defined well enough to judge a stale local file)
             plan['prefix_junk'] = rng.choice([1, 128, 5000])
         plan['mode'] = rng.choice(('race', 'fallback'))
+        if role == 'uploader' and not plan['prefix'] and rng.random() < 0.3:
+            plan['foreign'] = rng.choice([[''], ['', ' (1)'], ['', ' (2)'], ['', ' (2)', ' (3)'], [' (2)'], ['', ' (1)', ' (3)']])
+            plan['chain'] = rng.choice([None, None, ['D', 'N'], ['D', 'K', 'N'], ['K', 'D', 'N']])
         return plan
     size = rng.choice(SIZES)
     regime = rng.random()
@@ -596,6 +603,24 @@ def _run_scripted(world: World, plan):
                 fired['early_close'] += 1
             b.setdefault('on_queue', 'start_once')
             xp.share(path, source, **b)
+            if plan.get('chain'):
+                # a configured naming chain (it ends in number-duplicates: fresh names are its job)
+                from aioslsk.naming import DefaultNamingStrategy, KeepDirectoryStrategy, NumberDuplicateStrategy
+                kinds = {'D': DefaultNamingStrategy, 'K': KeepDirectoryStrategy, 'N': NumberDuplicateStrategy}
+                alice.client.shares.naming_strategies = [kinds[c]() for c in plan['chain']]
+            if plan.get('foreign') is not None:
+                # other people's files already sit where the download would go (its natural name, numbered variants)
+                chain = plan.get('chain') or ['D', 'N']
+                ddir = alice.settings.shares.download
+                if 'K' in chain:
+                    ddir = os.path.join(ddir, 'stuff')
+                os.makedirs(ddir, exist_ok=True)
+                for k, suffix in enumerate(plan['foreign']):
+                    with open(os.path.join(ddir, f'data{suffix}.bin'), 'wb') as fh:
+                        fh.write(pattern_bytes(700 + k, 40 + k))
+                    fired['foreign_file_in_the_way'] += 1
+                results['foreign'] = {os.path.join(ddir, f'data{suffix}.bin'): pattern_bytes(700 + k, 40 + k)
+                                      for k, suffix in enumerate(plan['foreign'])}
             if plan.get('prefix'):
                 ddir, fname = alice.client.shares.calculate_download_path(path)
                 os.makedirs(ddir, exist_ok=True)
@@ -642,7 +667,18 @@ def _run_scripted(world: World, plan):
         if t is not None and t.state.VALUE.name == 'COMPLETE':
             data = mon.local_bytes()
             if data != announced:
-                world.violate('C04.complete_bytes', size_class=sc, at='end', beh=sorted(beh))
+                world.violate('C04.complete_bytes', size_class=sc, at='end', beh=sorted(beh),
+                              **({'foreign': list(plan['foreign'])} if plan.get('foreign') is not None else {}))
+        for fpath, content in (results.get('foreign') or {}).items():
+            try:
+                with open(fpath, 'rb') as fh:
+                    now_content = fh.read()
+            except OSError:
+                now_content = None
+            if now_content != content:
+                world.violate('C04.complete_bytes', size_class=sc, at='end', what='a file that was there before was changed',
+                              foreign=list(plan['foreign']))
+                break
     else:
         dl = results.get('dl')
         # upload COMPLETE only if every byte from the negotiated offset was sent and the peer closed
